@@ -6,7 +6,7 @@ from . import conn
 from .c15 import tolerated_set
 from .c16 import token_roundtrip
 from .conn import leaves, self_field, find_outcome, ret_kind
-from .util import const_of, is_call, last_seg, look, norm, option_is_some, transforms, truth
+from .util import as_sum, ok_payload_source, strip_map_err, const_of, is_call, last_seg, look, norm, option_is_some, transforms, truth
 
 EXPLANATION = (
     "Static decision of the grammar's structural clauses: RequestLine::try_from evaluates split, "
@@ -40,6 +40,13 @@ def run(ctx):
     ctx.guarded("R02.3", "incremental", lambda: incremental_tolerated(ctx, "R02.3"))
     ctx.guarded("R02.4", "uri", lambda: uri(ctx))
     ctx.guarded("R02.5", "lines", lambda: lines(ctx))
+    ctx.rule("R02.6", "the body is exactly the Content-Length bytes after the header terminator: body accumulation and carry-over cursor rules (C01 R01.2/R01.5)")
+    ctx.rule("R02.7", "Content-Length is an unsigned 32-bit decimal: parsed with parse::<u32> into a u32 field (C15 R15.5)")
+    from .c06 import _Remap
+    from . import c01
+    ctx.guarded("R02.6", "body", lambda: c01.body(_Remap(ctx, "R02.6")))
+    ctx.guarded("R02.6", "cursor", lambda: c01.cursor_defined(_Remap(ctx, "R02.6")))
+    ctx.guarded("R02.7", "u32", lambda: content_length_u32(ctx, "R02.7"))
 
 
 def order(ctx):
@@ -87,16 +94,8 @@ def parts(ctx):
         return t[0] == "field" and t[1][0] == "downcast" and t[1][2] == "Some" and pred(t[1][1])
 
     def plus1(t, pred):
-        # payload(ok_or(checked_add(x, 1), _)) or AddWithOverflow(x,1).0
-        t = look(t)
-        if t[0] == "payload" and is_call(t[1], "ok_or") and is_call(look(t[1][2][0]), "checked_add"):
-            ca = look(t[1][2][0])
-            return const_of(ca[2][1]) == 1 and pred(ca[2][0])
-        if t[0] == "field" and t[1][0] == "bin" and t[1][1] in ("AddWithOverflow", "Add") and const_of(t[1][3]) == 1:
-            return pred(t[1][2])
-        if t[0] == "bin" and t[1] == "Add" and const_of(t[3]) == 1:
-            return pred(t[2])
-        return False
+        sm = as_sum(t)
+        return sm is not None and const_of(sm[1]) == 1 and pred(sm[0])
 
     def rng(t, kind):
         t = look(t)
@@ -196,28 +195,45 @@ def incremental_tolerated(ctx, rule):
 def uri(ctx):
     fn, lv = leaves(ctx, "request::Uri::try_from")
     seen = set()
+    S = Shapes(ctx.facts)
+
+    def is_from_utf8_of_input(x):
+        x = strip_map_err(x)
+        return is_call(x, "from_utf8") and look(x[2][0]) == ("arg", 1)
+
     for lf in lv:
         rk = ret_kind(lf)
         if rk is None:
             continue
         empty = conn.atom_truth(lf, lambda t: is_call(t, "is_empty") and look(t[2][0]) == ("arg", 1))
+        utf8_err = any(t[0] == "discr" and is_from_utf8_of_input(t[1]) and (c == ("eq", 1) or (c[0] == "ne" and 0 in c[1])) for (t, c, _b) in lf.conds)
         if empty:
             seen.add("empty")
             e = look(rk[1]) if rk[0] == "Err" else None
             ctx.ob("R02.4", "uri|empty", e is not None and e[0] == "agg" and e[2] == "InvalidUri", "an empty URI is InvalidUri", fn.loc(lf.bb))
-        elif rk[0] == "prop":
+        elif rk[0] == "prop" or (rk[0] == "Err" and utf8_err):
             seen.add("non-utf8")
-            src = rk[1][2][0][1]
-            S = Shapes(ctx.facts)
-            shapes = S.eval(rk[1], fn)
+            shapes = S.eval(lf.ret(), fn)
             names = {s[1][0] for s in shapes if s != TOP and s[0] == "Err" and s[1] != TOP}
-            ok = is_call(src, "map_err") and is_call(look(src[2][0]), "from_utf8") and look(look(src[2][0])[2][0]) == ("arg", 1) and names == {"InvalidUri"}
+            if rk[0] == "prop":
+                src = rk[1][2][0][1]
+                ok = is_from_utf8_of_input(src) and names == {"InvalidUri"}
+            else:
+                ok = names == {"InvalidUri"}
             ctx.ob("R02.4", "uri|non-utf8", ok, "a URI that is not UTF-8 is InvalidUri (error kinds %s)" % sorted(names), fn.loc(lf.bb))
         elif rk[0] == "Ok":
             seen.add("ok")
             v = look(rk[1])
-            ok = is_call(v, "request::Uri::new") and v[2][0][0] == "payload" and is_call(look(v[2][0][1]), "map_err") and is_call(look(look(v[2][0][1])[2][0]), "from_utf8") and look(look(look(v[2][0][1])[2][0])[2][0]) == ("arg", 1)
-            tr = [x for x in transforms(v) if x not in ("new", "map_err", "from_utf8")]
+            ok = is_call(v, "request::Uri::new") or (v[0] == "agg" and v[1] == "request::Uri")
+            src = None
+            if ok:
+                inner = v[2][0] if v[0] == "call" else v[3][0]
+                inner = look(inner)
+                while is_call(inner, "from", "to_owned", "to_string", "into") and inner[1].split("::")[0] in ("std", "core", "alloc"):
+                    inner = look(inner[2][0])
+                src = ok_payload_source(inner)
+                ok = src is not None and is_from_utf8_of_input(src)
+            tr = [x for x in transforms(v) if x not in ("new", "map_err", "from_utf8", "from", "to_owned", "to_string", "into")]
             ctx.ob("R02.4", "uri|verbatim", ok and not tr, "the stored URI is from_utf8(the bytes) with no transformation (extra calls: %s)" % tr, fn.loc(lf.bb))
         else:
             ctx.fail("R02.4", "uri|other-return", "unexpected return in Uri::try_from", fn.loc(lf.bb))
@@ -251,25 +267,15 @@ def lines(ctx):
         return False
 
     def start_plus_found(t):
-        t = look(t)
-        # AddWithOverflow(start, found).0 | payload(ok_or(checked_add(found, start)))
-        if t[0] == "field" and t[1][0] == "bin" and t[1][1] in ("AddWithOverflow", "Add"):
-            a, b = t[1][2], t[1][3]
-            return (is_start(a) and find_payload(b)) or (is_start(b) and find_payload(a))
-        if t[0] == "payload" and is_call(t[1], "ok_or") and is_call(look(t[1][2][0]), "checked_add"):
-            ca = look(t[1][2][0])
-            a, b = ca[2][0], ca[2][1]
-            return (is_start(a) and find_payload(b)) or (is_start(b) and find_payload(a))
-        return False
+        sm = as_sum(t)
+        if sm is None:
+            return False
+        a, b = sm
+        return (is_start(a) and find_payload(b)) or (is_start(b) and find_payload(a))
 
     def plus2(t, pred):
-        t = look(t)
-        if t[0] == "field" and t[1][0] == "bin" and t[1][1] in ("AddWithOverflow", "Add") and const_of(t[1][3]) == 2:
-            return pred(t[1][2])
-        if t[0] == "payload" and is_call(t[1], "ok_or") and is_call(look(t[1][2][0]), "checked_add"):
-            ca = look(t[1][2][0])
-            return const_of(ca[2][1]) == 2 and pred(ca[2][0])
-        return False
+        sm = as_sum(t)
+        return sm is not None and const_of(sm[1]) == 2 and pred(sm[0])
 
     # request line
     fn, lv = leaves(ctx, conn.PARSE_RL)
@@ -320,3 +326,23 @@ def lines(ctx):
                 rl = rq[names.index("request_line")]
                 ok = rl[0] == "payload" and is_call(rl[1], "map_err") and is_call(look(rl[1][2][0]), "request::RequestLine::try_from") and is_call(rq[names.index("headers")], "default") and rq[names.index("body")][0] == "agg" and rq[names.index("body")][2] == "None"
             ctx.ob("R02.5", "pending-request|fresh", ok, "a new pending request holds the parsed request line, default headers, no body", fn.loc(e[1]))
+
+
+def content_length_u32(ctx, rule):
+    facts = ctx.facts
+    fn = facts.fn(conn.PHL)
+    n = 0
+    for bb, t in fn.calls_to("parse"):
+        targs = [x["s"] for x in t["callee"].get("targs", [])]
+        n += 1
+        ctx.ob(rule, "parse-u32", targs == ["u32"], "Content-Length parsed with str::parse::<%s>" % ",".join(targs), fn.loc(bb))
+    ctx.ob(rule, "one-parse", n == 1, "%d parse call(s) in parse_header_line" % n, fn.loc(0))
+    fty = [f for f in facts.struct_fields("common::headers::Headers") if f["name"] == "content_length"]
+    ctx.ob(rule, "field-u32", fty and fty[0]["ty"]["s"] == "u32", "Headers.content_length is a %s" % (fty[0]["ty"]["s"] if fty else "?"))
+    _, lv = leaves(ctx, conn.PHL)
+    for lf in lv:
+        for e in lf.events:
+            if e[0] == "assign" and e[3] == "(*_1).content_length":
+                v = look(e[4])
+                ok = v[0] == "field" and v[1][0] == "downcast" and v[1][2] == "Ok" and is_call(look(v[1][1]), "parse")
+                ctx.ob(rule, "stored-unchanged", ok, "the parsed value is stored without conversion: %s" % term_s(v)[:90], fn.loc(e[1]))
